@@ -363,11 +363,30 @@ def oracle_rp_twins(case, rec):
     if n_emb < 2:
         return
     states = ref.embed(x, dim, tau)
-    R = ref.recurrence_matrix(states, thr, strict=True)
+    mode = case.get("mode", "threshold")
+    rec.label("rp_mode=" + mode)
+    exact = mode == "threshold"
+    if exact:
+        R = ref.recurrence_matrix(states, thr, strict=True)
+        kw = {"threshold": thr}
+    elif mode == "local_recurrence_rate":
+        kw = {"local_recurrence_rate": 0.15 + 0.1 * (case["calls"][0]["a"]
+                                                     % 4)}
+    else:
+        kw = {"adaptive_neighborhood_size": 1 + case["calls"][0]["a"] % max(
+            1, (n_emb - 1) // 3)}
     ok, rp = rec.call("construct", RecurrencePlot, x, dim=dim, tau=tau,
-                      metric="supremum", threshold=thr, silence_level=3)
+                      metric="supremum", silence_level=3, **kw)
     if not ok:
         return
+    if not exact:
+        # recurrence matrices that need not be symmetric (C07 holds them to
+        # their construction rules): the twins are defined on the matrix the
+        # plot holds - states more than min_dist apart with identical rows.
+        # The library's pre-filter (equal column sums) may skip true twins
+        # there, so its lists are held to soundness, not completeness.
+        R = [[int(v) for v in row] for row in np.asarray(
+            rp.recurrence_matrix())]
     nt = False
     for idx, c in enumerate(case["calls"]):
         suffix = "" if idx == 0 else "_after_other_calls"
@@ -379,9 +398,22 @@ def oracle_rp_twins(case, rec):
         if c["what"] == "twins":
             ok, tl = rec.call("recurrence_plot_twins_raises" + suffix,
                               rp.twins, min_dist=md)
-            if ok:
+            if ok and exact:
                 _check_twin_lists(rec, [tl], [(states, tw)],
                                   "recurrence_plot_twins_exact" + suffix)
+            elif ok:
+                try:
+                    got = [sorted(int(k) for k in t_) for t_ in tl]
+                except Exception as e:  # pylint: disable=broad-except
+                    got = None
+                    rec.fail("recurrence_plot_twins_sound" + suffix,
+                             "unreadable twin list %r" % (e,))
+                if got is not None and len(got) == len(tw):
+                    bad = [(j, k) for j, ks in enumerate(got) for k in ks
+                           if k not in tw[j]]
+                    rec.check(not bad, "recurrence_plot_twins_sound" + suffix,
+                              "reported pairs without identical rows / "
+                              "separation: %s" % bad[:5])
             continue
         pbt.seed_library_rngs(c["a"], c["b"])
         ok, out = rec.call("recurrence_plot_twin_surrogates_raises" + suffix,
@@ -579,7 +611,10 @@ def rp_twin_cases(draw):
                       "a": draw(st.integers(0, 2 ** 32 - 1)),
                       "b": draw(st.integers(0, 2 ** 32 - 1))})
     return {"x": x, "dim": dim, "tau": tau,
-            "thr": draw(st.sampled_from(THRESHOLDS)), "calls": calls}
+            "thr": draw(st.sampled_from(THRESHOLDS)), "calls": calls,
+            "mode": draw(st.sampled_from(
+                ["threshold", "threshold", "local_recurrence_rate",
+                 "adaptive_neighborhood_size"]))}
 
 
 @st.composite
